@@ -156,15 +156,29 @@ func (f *Frag) End(term string) string {
 		b.WriteString(" " + f.fattrs)
 	}
 	b.WriteString(" {\n")
+	// every instruction and terminator of the grammar takes trailing metadata attachments: one
+	// deviation puts an attachment on EVERY line of the body (lines that have one already and
+	// freeze, whose attachments the llir/ll grammar does not read -- a known finding -- excepted).
+	deco := func(l string) string { return l }
+	if len(f.flines) > 0 && f.c.Flip("metadata-on-every-instruction") {
+		id := f.MDID()
+		f.TailLine("!%d = !{i32 77}", id)
+		deco = func(l string) string {
+			if strings.Contains(l, ", !") || strings.Contains(l, " freeze ") || strings.HasPrefix(l, "freeze ") {
+				return l
+			}
+			return fmt.Sprintf("%s, !every !%d", l, id)
+		}
+	}
 	for _, l := range f.flines {
 		if strings.HasSuffix(l, ":") && !strings.HasPrefix(l, " ") {
 			b.WriteString(l + "\n")
 		} else {
-			b.WriteString("  " + l + "\n")
+			b.WriteString("  " + deco(l) + "\n")
 		}
 	}
 	if term != "-" {
-		b.WriteString("  " + term + "\n")
+		b.WriteString("  " + deco(term) + "\n")
 	}
 	b.WriteString("}")
 	f.Top = append(f.Top, b.String())
